@@ -766,6 +766,9 @@ class Engine(object):
             v, _ = seqs.seq_get(container, j)
             return [(st, z3.Exists([j], z3.And(j >= 0, j < to_int_term(container.length), ops._tb(equal(v, item)))))]
         if isinstance(container, ObjV):
+            ext = self.externals.get(container.cls + ".__contains__")
+            if ext is not None:
+                return [(s_, truth(v_) if not isinstance(v_, Raised) else v_) for s_, v_, _ in ext(self, container, [item], {}, st, node)]
             m = self.find_method(container.cls, "__contains__")
             if m is not None:
                 return [(s_, truth(v_) if not isinstance(v_, Raised) else v_) for s_, v_ in self.call_function(m[0].bind(container), [item], {}, st, node)]
@@ -1480,6 +1483,11 @@ class Engine(object):
                     return [(s1, val_)]
                 del self.obligations[n_obl:]
                 raise EngineError("any/all over a symbolic map with a body that forks or may raise (line %d)" % node.lineno)
+            if len(r) == 1 and isinstance(r[0][1], EnumV) and isinstance(r[0][1].seq, SeqV) and self.static_items(r[0][1].seq) is None:
+                enum_ = r[0][1]
+                r = [(r[0][0], enum_.seq)]
+            else:
+                enum_ = None
             if len(r) == 1 and isinstance(r[0][1], SeqV) and self.static_items(r[0][1]) is None:
                 sq, s1 = r[0][1], r[0][0]
                 # quantify over the ABSOLUTE array index (slices share their parent's arrays), so that
@@ -1488,6 +1496,10 @@ class Engine(object):
                 bt = to_int_term(sq.base) if not isinstance(sq.base, int) else z3.IntVal(sq.base)
                 j = J - bt
                 el, facts = seqs.seq_get(SeqV(sq.length, sq.elem, sq.arrs, sq.kind, 0), J)
+                if enum_ is not None:
+                    # enumerate(seq, start): the element together with its number
+                    st0_ = enum_.start
+                    el = ((st0_ if not isinstance(st0_, int) else z3.IntVal(st0_)) + j, el)
                 s_in = self.assign(g.target, el, s1.assume(*facts, j >= 0, j < to_int_term(sq.length)))
                 n_obl = len(self.obligations)
                 filt = []
